@@ -27,7 +27,14 @@ def catalogue():
     # "assigned to @..."): one of each, imported in three rounds, some edited afterwards
     s4 = [st("NewIssue", 1)] + [st("AddEvent", 1, "comment")] * 5 + [st("Round", fail="none")] + [st("AddEvent", 1, "comment")] * 5 + [st("Round", fail="notes:1")] + \
          [st("AddEvent", 1, "comment")] * 3 + [st("EditNote", 1, k=1), st("EditNote", 1, k=3), st("EditNote", 1, k=7), st("Round", fail="none"), st("Round", fail="none")]
-    return [{"name": "hand-1", "steps": s1}, {"name": "hand-2", "steps": s2}, {"name": "renamed-before-first-import", "steps": s3},
+    # the lookup of a user fails (GET /users/:id), in a round where that user's first event lies between others: what follows it is
+    # left for the next run; a user already known is not looked up again; a new issue opened by that user ends the run
+    s5 = [st("NewIssue", 1), st("AddEvent", 1, "comment"), st("AddEvent", 1, "title"), st("AddEvent", 1, "title"), st("AddEvent", 1, "label"),
+          st("Round", fail="user:1"), st("Round", fail="none"), st("Round", fail="user:1"), st("AddEvent", 1, "title"), st("AddEvent", 1, "state"),
+          st("NewIssue", 2), st("AddEvent", 2, "comment"), st("Round", fail="user:2"), st("Round", fail="none"), st("Round", fail="none")]
+    s6 = [st("NewIssue", 2), st("AddEvent", 2, "title"), st("NewIssue", 1), st("AddEvent", 1, "comment"), st("AddEvent", 2, "title"), st("Round", fail="user:2"),
+          st("AddEvent", 1, "title"), st("Round", fail="user:1"), st("Round", fail="none"), st("EditNote", 1, k=1), st("Round", fail="user:1"), st("Round", fail="none")]
+    return [{"name": "user-lookup-fails-1", "steps": s5}, {"name": "user-lookup-fails-2", "steps": s6}, {"name": "hand-1", "steps": s1}, {"name": "hand-2", "steps": s2}, {"name": "renamed-before-first-import", "steps": s3},
             {"name": "comments-that-read-like-system-notes", "steps": s4}]
 
 
@@ -35,7 +42,7 @@ def simulate(c, n):
     d = c.specdir()
     cfg = "MBT_Bridge_run.cfg"
     with open(os.path.join(d, cfg), "w") as f:
-        f.write("SPECIFICATION MSpec\nCONSTANTS Issue = {1, 2}  Margin = 5  MaxEv = 112  Depth = 16\nINVARIANT Emit\nCHECK_DEADLOCK FALSE\n")
+        f.write("SPECIFICATION MSpec\nCONSTANTS Issue = {1, 2}  Margin = 5  StopAtFirst = TRUE  MaxEv = 112  Depth = 16\nINVARIANT Emit\nCHECK_DEADLOCK FALSE\n")
     out, seen = [], set()
     for rnd in range(1, 6):
         r = c.tlc("MBT_Bridge", cfg, workers=1, simulate=max(40, n // 3), depth=60, timeout=600, label="bridge scenario generation", seed=c.seed + 13 * rnd)
@@ -130,8 +137,11 @@ def run_scheds(c, scheds, tag):
 def run(c):
     d = c.specdir()
     with open(os.path.join(d, "MC_Bridge_run.cfg"), "w") as f:
-        f.write("SPECIFICATION Spec\nCONSTANTS Issue = {1, 2}  Margin = 5  MaxEv = %d  MaxRounds = 3\nINVARIANTS Complete TitleFollows CursorRule\nPROPERTIES Monotone Idempotent\nCHECK_DEADLOCK FALSE\n" % (3 if c.tier == "quick" else 4))
+        f.write("SPECIFICATION Spec\nCONSTANTS Issue = {1, 2}  Margin = 5  StopAtFirst = TRUE  MaxEv = %d  MaxRounds = 3\nINVARIANTS Complete TitleFollows CursorRule\nPROPERTIES Monotone Idempotent\nCHECK_DEADLOCK FALSE\n" % (3 if c.tier == "quick" else 4))
     c.tlc_model("MC_Bridge", "MC_Bridge_run.cfg", timeout=3400, label="2 issues, tracker growth, <= 3 rounds, failure of any request class")
+    r = c.tlc("MC_Bridge", "MC_Bridge_goon.cfg", timeout=900, label="witness: going on with the events that follow one that could not be imported (the pinned tree) must violate TitleFollows")
+    if r.violated != "TitleFollows":
+        raise Broken("MC_Bridge_goon.cfg did not produce the counterexample to TitleFollows: the user-lookup part of the model is vacuous")
     scheds = catalogue() + simulate(c, 40 if c.tier == "quick" else 1500)
     sessions = run_scheds(c, scheds, "main")
     n_ok, failures = validate(c, sessions, "bridge")
